@@ -36,7 +36,7 @@ def sh(cmd, cwd=None, timeout=None, env=None):
 
 def main():
     a = sys.argv[1:]
-    j, surv, outp, every, only = 8, "/tmp/mut/surv", "/tmp/mut/kill.tsv", False, None
+    j, surv, outp, every, only, second = 8, "/tmp/mut/surv", "/tmp/mut/kill.tsv", False, None, None
     while a:
         x = a.pop(0)
         if x == "-j":
@@ -49,12 +49,23 @@ def main():
             every = True
         elif x == "--only":
             only = set(a.pop(0).split(","))
+        elif x == "--second":
+            # second pass: survivors of a first pass (its result file), remaining checks only
+            second = a.pop(0)
     done = set()
     if os.path.exists(outp):
         for l in open(outp):
             done.add(l.split("\t")[0])
     q = queue.Queue()
     pre = []
+    already = {}
+    if second:
+        only = set()
+        for l in open(second):
+            f = l.rstrip("\n").split("\t")
+            if f[4] == "survived" and f[3] != "string-empty" and not f[1].endswith(("renderer.go", "validator.go")):
+                only.add(f[0])
+                already[f[0]] = set(x.split("=")[0] for x in f[6].split(",") if x)
     for l in open(os.path.join(surv, "index.tsv")):
         name, f, ln, kind = l.rstrip("\n").split("\t")
         if name in done or (only and name not in only):
@@ -100,6 +111,8 @@ def main():
                 order = list(ORDER.get(f, ALL))
                 if every:
                     order += [c for c in ALL if c not in order]
+                if second:
+                    order = [c for c in ALL if c not in already.get(name, ())]
                 for c in order:
                     shutil.rmtree(verif + "/replays", ignore_errors=True)
                     try:
